@@ -2,7 +2,7 @@
 Coq definitions.  Every function returns (list of (name, text), extra_header)."""
 import ast
 from py2coq import (Source, Untranslatable, block_defs, single_def, guard_def, if_on, nth_assign,
-                    first_raise_guard, ExprTr, GuardTr, lit, _short)
+                    first_raise_guard, ExprTr, GuardTr, lit, _short, store_census, expect_skeleton)
 
 
 # ---------------------------------------------------------------- typechecks
@@ -232,6 +232,7 @@ def _norm_denorm(fn, prefix, defs, consts):
 def g_spline_linear(repo):
     src = Source(repo, "nflows/transforms/splines/linear.py")
     fn = src.func("linear_spline")
+    store_census(fn, {"pdf": 1, "cdf": 3, "inputs": 2, "outputs": 7, "logabsdet": 4, "bin_idx": 2, "inv_bin_idx": 2})
     defs = domain_guard(fn, "lin")
     mid = _norm_denorm(fn, "lin", defs, src.consts)
     if len(mid) != 1:
@@ -277,6 +278,8 @@ RQ_FREE = ["inputs", "input_cumwidths", "input_bin_widths", "input_cumheights", 
 def g_spline_rq(repo):
     src = Source(repo, "nflows/transforms/splines/rational_quadratic.py")
     fn = src.func("rational_quadratic_spline")
+    store_census(fn, {"widths": 3, "cumwidths": 5, "derivatives": 1, "heights": 3, "cumheights": 5, "delta": 1, "bin_idx": 2,
+                      "outputs": 2, "logabsdet": 2, "inputs": 0})
     st = if_on(fn, "inverse", "theta_one_minus_theta")
     defs = []
     defs += block_defs("rq_inv", st.body, RQ_FREE, ["a", "b", "c", "discriminant", "root", "ret0", "ret1"],
@@ -502,6 +505,35 @@ def made_defs(repo, rel, prefix):
     tbl = "; ".join('("%s", "%s", %s)' % (qn, use, "true" if ok_ else "false") for qn, use, ok_ in rows)
     defs.append((prefix + "weight_uses",
                  "Definition %sweight_uses : list (string * string * bool) := [%s].\n" % (prefix, tbl)))
+    # how the constructors hand degrees from layer to layer: every call that receives `in_degrees` (or a ** dictionary) and every
+    # assignment to the running `prev_out_degrees` / a block's `self.degrees`, in source order.  The model's network is a CHAIN
+    # (each masked layer is built against the degrees of the layer right before it); Model/Made.v states the table of a chain.
+    wires = []
+    for cname in ("MaskedFeedforwardBlock", "MaskedResidualBlock", "MADE"):
+        ctor = src.method(cname, "__init__")
+
+        def visit(stmts):
+            for st in stmts:
+                if isinstance(st, (ast.For, ast.While, ast.If, ast.With, ast.Try)):
+                    visit(st.body)
+                    visit(getattr(st, "orelse", []))
+                    continue
+                tgt = ast.unparse(st.targets[0]) if isinstance(st, ast.Assign) else ""
+                for n in ast.walk(st):
+                    if isinstance(n, ast.Call):
+                        kws = {k.arg: k.value for k in n.keywords}
+                        if "in_degrees" in kws or None in kws:
+                            what = ast.unparse(kws["in_degrees"]) if "in_degrees" in kws else "**" + ast.unparse(kws[None])
+                            wires.append((cname, tgt or ast.unparse(st).split("(")[0], ast.unparse(n.func), what))
+                if isinstance(st, ast.Assign) and tgt in ("prev_out_degrees", "self.degrees"):
+                    wires.append((cname, tgt, "=", ast.unparse(st.value)))
+        visit(ctor.body)
+    for w_ in wires:
+        if any('"' in f_ for f_ in w_):
+            raise Untranslatable("degree wiring: quote in %r" % (w_,), src.tree)
+    wt = "; ".join('("%s", "%s", "%s", "%s")' % w_ for w_ in wires)
+    defs.append((prefix + "degree_wiring",
+                 "Definition %sdegree_wiring : list (string * string * string * string) := [%s].\n" % (prefix, wt)))
     return defs
 
 
@@ -760,6 +792,7 @@ def g_norm(repo):
              "running_mean": "a_running_mean", "running_var": "a_running_var",
              "unconstrained_weight": "a_unconstrained_weight"}
     fw = src.method("BatchNorm", "forward")
+    expect_skeleton(fw, ["If:inputs.dim() != 2", "If:self.training", "Assign", "Assign", "Assign", "Return"])
     tr_if = [s for s in fw.body if isinstance(s, ast.If) and ast.unparse(s.test) == "self.training"]
     if len(tr_if) != 1:
         raise Untranslatable("BatchNorm.forward: expected `if self.training:`", fw)
@@ -805,6 +838,7 @@ def g_norm(repo):
     if agg != "torch.sum(logabsdet_) * inputs.new_ones(inputs.shape[0])":
         raise Untranslatable("BatchNorm.forward: log-det aggregation `%s`" % agg, fw)
     iv = src.method("BatchNorm", "inverse")
+    expect_skeleton(iv, ["If:self.training", "If:inputs.dim() != 2", "Assign", "Assign", "Assign", "Return"])
     first = [s for s in iv.body if not (isinstance(s, ast.Expr) and isinstance(s.value, ast.Constant))][0]
     ok = isinstance(first, ast.If) and ast.unparse(first.test) == "self.training" and isinstance(first.body[0], ast.Raise) \
         and ast.unparse(first.body[0].exc.func) == "InverseNotAvailable"
@@ -822,6 +856,8 @@ def g_norm(repo):
                  % ExprTr({}, attrs=attrs).tr(wprop.body[0].value)))
     # ---- ActNorm
     fw = src.method("ActNorm", "forward")
+    expect_skeleton(fw, ["If:inputs.dim() not in [2, 4]", "If:self.training and (not self.initialized)", "Assign", "Assign",
+                         "If:inputs.dim() == 4", "Return"])
     ini = [s for s in fw.body if isinstance(s, ast.If) and "self._initialize(inputs)" in ast.unparse(s)]
     if len(ini) != 1:
         raise Untranslatable("ActNorm.forward: initialisation call", fw)
@@ -831,6 +867,7 @@ def g_norm(repo):
     defs.append(("an_forward_out", "Definition an_forward_out {T : Type} (O : ops T) (v_scale v_shift v_inputs : T) : T :=\n  %s.\n"
                  % ExprTr(env).tr(nth_assign(fw, "outputs", 0).value)))
     iv = src.method("ActNorm", "inverse")
+    expect_skeleton(iv, ["If:inputs.dim() not in [2, 4]", "Assign", "Assign", "If:inputs.dim() == 4", "Return"])
     defs.append(("an_inverse_out", "Definition an_inverse_out {T : Type} (O : ops T) (v_scale v_shift v_inputs : T) : T :=\n  %s.\n"
                  % ExprTr(env).tr(nth_assign(iv, "outputs", 0).value)))
     sc = src.method("ActNorm", "scale")
@@ -851,6 +888,7 @@ def g_norm(repo):
     lad_branches(iv, "-")
     defs.append(("an_lad_is_hw_times_sum_log_scale", "Definition an_lad_is_hw_times_sum_log_scale : bool := true.\n"))
     init = src.method("ActNorm", "_initialize")
+    expect_skeleton(init, ["If:inputs.dim() == 4", "With"])
     w = [s for s in init.body if isinstance(s, ast.With)]
     if len(w) != 1 or ast.unparse(w[0].items[0].context_expr) != "torch.no_grad()":
         raise Untranslatable("ActNorm._initialize: with torch.no_grad()", init)
@@ -889,6 +927,8 @@ QUAD_FREE = ["inputs", "input_bin_locations", "input_bin_widths", "input_left_cd
 def g_spline_quadratic(repo):
     src = Source(repo, "nflows/transforms/splines/quadratic.py")
     fn = src.func("quadratic_spline")
+    store_census(fn, {"widths": 2, "unnorm_heights_exp": 2, "unnormalized_area": 1, "heights": 2, "bin_left_cdf": 3,
+                      "bin_locations": 3, "inputs": 2, "bin_idx": 2, "outputs": 6, "logabsdet": 4})
     defs = domain_guard(fn, "quad")
     mid = _norm_denorm(fn, "quad", defs, src.consts)
     # mid: [bin search if, kernel if]
@@ -965,6 +1005,8 @@ def _targets_of(st):
 def g_spline_cubic(repo):
     src = Source(repo, "nflows/transforms/splines/cubic.py")
     fn = src.func("cubic_spline")
+    store_census(fn, {"widths": 2, "cumwidths": 3, "heights": 2, "cumheights": 3, "slopes": 1, "derivatives": 2, "a": 2, "b": 2,
+                      "c": 2, "d": 1, "inputs": 2, "bin_idx": 2, "outputs": 7, "logabsdet": 4})
     defs = domain_guard(fn, "cub")
     mid = _norm_denorm(fn, "cub", defs, src.consts)
     kern = [m for m in mid if any(t.id == "shifted_inputs" for s_ in m.orelse for t in _targets_of(s_))]
@@ -1446,6 +1488,81 @@ def g_wrappers(repo):
 
 
 GROUPS += [("Wrappers", g_wrappers, ["nflows/transforms/base.py"])]
+
+
+# ---------------------------------------------------------------- the context reaches every part
+def context_table(src, classes, callee_rx, skip_rx=None):
+    """Every call, inside a method of `classes` that takes a `context` parameter, whose callee text matches callee_rx (the
+    sub-transforms, their inverses, conditioner networks, internal cascades): does it hand on `context` - positionally or as
+    context=context?  -> rows (class.method, call text, bool)."""
+    import re
+    rows = []
+    for node in src.tree.body:
+        if not (isinstance(node, ast.ClassDef) and node.name in classes):
+            continue
+        for m_ in node.body:
+            if not isinstance(m_, ast.FunctionDef) or "context" not in [a.arg for a in m_.args.args]:
+                continue
+            for c in ast.walk(m_):
+                if not isinstance(c, ast.Call):
+                    continue
+                callee = ast.unparse(c.func)
+                if not c.args or not re.search(callee_rx, callee) or (skip_rx and re.search(skip_rx, callee)):
+                    continue
+                passes = any(isinstance(a, ast.Name) and a.id == "context" for a in c.args) or \
+                    any(k.arg == "context" and isinstance(k.value, ast.Name) and k.value.id == "context" for k in c.keywords)
+                txt = ast.unparse(c)
+                if '"' in txt:
+                    raise Untranslatable("context table: quote in call text", c)
+                rows.append(("%s.%s" % (node.name, m_.name), txt if len(txt) < 90 else txt[:87] + "...", passes))
+    return rows
+
+
+def g_context(repo):
+    defs = []
+    spec = [("wrappers", "nflows/transforms/base.py", {"CompositeTransform", "MultiscaleCompositeTransform", "InverseTransform"},
+             r"(transform|func|_cascade)", r"(\.append$|\.format$|^len$|_transforms$|^zip$|^reversed$|^list$)"),
+            ("coupling", "nflows/transforms/coupling.py", {"CouplingTransform", "UMNNCouplingTransform"},
+             r"(transform_net|unconditional_transform)", None),
+            ("autoregressive", "nflows/transforms/autoregressive.py", {"AutoregressiveTransform"},
+             r"(autoregressive_net)", None)]
+    for name, path, classes, rx, skip in spec:
+        src = Source(repo, path)
+        rows = context_table(src, classes, rx, skip)
+        if not rows:
+            raise Untranslatable("%s: no sub-transform / conditioner calls found" % path, src.tree)
+        tbl = "; ".join('("%s", "%s", %s)' % (a, b, "true" if c else "false") for a, b, c in rows)
+        defs.append((name + "_context_forwarding",
+                     "Definition %s_context_forwarding : list (string * string * bool) := [%s].\n" % (name, tbl)))
+    # who decides whether the identity features get a transform of their own: in every coupling constructor the assignment of
+    # `unconditional_transform` sits under a test, and the other branch assigns None
+    src = Source(repo, "nflows/transforms/coupling.py")
+    gates = []
+    for node in src.tree.body:
+        if not isinstance(node, ast.ClassDef):
+            continue
+        for m_ in node.body:
+            if not (isinstance(m_, ast.FunctionDef) and m_.name == "__init__"):
+                continue
+
+            def assigns(stmts):
+                return [st for st in stmts if isinstance(st, ast.Assign) and ast.unparse(st.targets[0]) in ("unconditional_transform", "self.unconditional_transform")]
+            for st in ast.walk(m_):
+                if isinstance(st, ast.If) and assigns(st.body):
+                    other = assigns(st.orelse)
+                    gates.append((node.name, ast.unparse(st.test), ast.unparse(other[0].value) if other else "(nothing)"))
+            top = [st for st in assigns(m_.body) if not (isinstance(st.value, ast.Name) or ast.unparse(st.value).startswith("unconditional_transform("))]
+            for st in top:
+                gates.append((node.name, "(always)", ast.unparse(st.value)[:60]))
+    if not gates:
+        raise Untranslatable("coupling.py: no constructor decides about unconditional_transform", src.tree)
+    gt = "; ".join('("%s", "%s", "%s")' % tuple(x.replace('"', "'") for x in g_) for g_ in gates)
+    defs.append(("coupling_unconditional_gates",
+                 "Definition coupling_unconditional_gates : list (string * string * string) := [%s].\n" % gt))
+    return defs, "From Coq Require Import String List.\nImport ListNotations.\nLocal Open Scope string_scope.\n\n"
+
+
+GROUPS += [("Context", g_context, ["nflows/transforms/base.py", "nflows/transforms/coupling.py", "nflows/transforms/autoregressive.py"])]
 
 
 # ---------------------------------------------------------------- unconstrained_* wrappers (linear tails), per element
